@@ -190,7 +190,12 @@ public:
             Atomic::increment(_pool->_processedJobs);
           }
           else
+          {
+            // the wake-up that brought this worker here may have been meant for further queued jobs as
+            // well (a reset() by this thread cancels it for the sleeping workers): pass it on before leaving
+            enqueuedSignal.set();
             break;
+          }
         }
         _terminated = true;
         return 0;
